@@ -297,7 +297,7 @@ pub fn run(run: &Run) {
     run.sample(|| "x=[1001,1000,1002,999] (letters shifted by 1e3), lags -5..=5: acovf, acf vs exact rationals; evenness; acf(0)=1".to_string());
     // AR on every short series
     let pmax_small = 3usize;
-    for n in 8..=run.tier.pick(9usize, 10usize) {
+    for n in 8..=run.tier.pick(9usize, 11usize) {
         par_words(3, n, |w| {
             let x: Vec<f64> = w.iter().map(|&i| [-1.0, 0.0, 1.0][i]).collect();
             for p in 1..=pmax_small {
@@ -320,7 +320,7 @@ pub fn run(run: &Run) {
     let mut jobs = Vec::new();
     for (ci, a) in coefsets.iter().enumerate() {
         for &len in &lens {
-            for seed in 0..run.tier.pick(2u64, 6u64) {
+            for seed in 0..run.tier.pick(2u64, 12u64) {
                 for &off in &[0.0, 1e3, 1e6] {
                     for p in 1..=pmax {
                         jobs.push((ci, a.clone(), len, seed, off, p));
@@ -337,7 +337,7 @@ pub fn run(run: &Run) {
             shift_equivariance(run, &x, *p, 1e3);
         }
     });
-    run.bound("AR", format!("orders 1..=3 on all series of length 8..={} over 3 letters; orders 1..={} on {} synthetic series; horizons 1..=50 / 1..=1000", run.tier.pick(9, 10), pmax, jobs.len()));
+    run.bound("AR", format!("orders 1..=3 on all series of length 8..={} over 3 letters; orders 1..={} on {} synthetic series; horizons 1..=50 / 1..=1000", run.tier.pick(9, 11), pmax, jobs.len()));
     for r in ["yule-walker-ok", "forecast-converged", "shift-equivariant"] {
         run.require_regime(r);
     }
